@@ -314,6 +314,9 @@ class CoLock(object):
   def locked(self):
     return self.owner is not None
 
+  def _at_fork_reinit(self):
+    self.owner = None
+
   def __enter__(self):
     self.acquire()
     return self
@@ -366,6 +369,9 @@ class CoRLock(object):
 
   def _is_owned(self):
     return SCHED is not None and self.owner is SCHED.me()
+
+  def _at_fork_reinit(self):
+    self.owner, self.count = None, 0
 
   def __enter__(self):
     self.acquire()
